@@ -348,7 +348,7 @@ func genProgram(t *rapid.T, prop string, pf *Profile, thorough bool) *Case {
 	}
 	if wq && onlyMem && len(c.Faults) == 0 && pct(t, "wqackfault", 50) {
 		for i := 0; i < rapid.IntRange(1, 2).Draw(t, "nwqfaults"); i++ {
-			c.Faults = append(c.Faults, Fault{Method: "Acknowledge", K: rapid.IntRange(1, 4).Draw(t, "wqfk")})
+			c.Faults = append(c.Faults, Fault{Method: pick(t, "wqfmethod", []string{"Acknowledge", "Acknowledge", "Dequeue"}), K: rapid.IntRange(1, 4).Draw(t, "wqfk")})
 		}
 	}
 	c.Sched = genSched(t, pf, thorough)
